@@ -89,6 +89,7 @@ def run(pid, tier, seed):
     quick = tier == "quick"
     from monkeytype.encoding import CallTraceRow, type_from_dict, type_from_json, type_to_json
     from monkeytype.tracing import CallTrace
+    from .. import fixture_classes as fx
     from monkeytype.typing import get_type, shrink_types
     from .c07 import make_rewriters, BASE
     tbl, ft, names, env = setup(chk.rng)
@@ -210,9 +211,12 @@ def run(pid, tier, seed):
             nargs = chk.rng.choice([0, 1, 2, 3])
             args = {("p%d" % i if chk.rng.random() < 0.8 else chk.rng.choice(["self", "zeta", "alpha"])): chk.rng.choice(pool)
                     for i in range(nargs)}
-            rsel = chk.rng.choice(["absent", "none", "type"])
-            ysel = chk.rng.choice(["absent", "absent", "none", "type"])
-            pick = lambda sel: None if sel == "absent" else ((none_t, ("cls", "9")) if sel == "none" else chk.rng.choice(pool)[:2])
+            # "falsy": a class whose class object is falsy (metaclass with __len__ == 0) as the whole return / yield type
+            rsel = chk.rng.choice(["absent", "none", "type", "type", "falsy"])
+            ysel = chk.rng.choice(["absent", "absent", "none", "type", "falsy"])
+            falsy_t = (fx.Falsy, ("cls", str(tbl.of(fx.Falsy))))
+            pick = lambda sel: None if sel == "absent" else ((none_t, ("cls", "9")) if sel == "none" else
+                                                             falsy_t if sel == "falsy" else chk.rng.choice(pool)[:2])
             ret, yld = pick(rsel), pick(ysel)
             trace = CallTrace(func, {n: t[0] for n, t in args.items()}, ret[0] if ret else None, yld[0] if yld else None)
             mtrace = ("trace", str(ft.of(func)), tuple((Q(n), t[1]) for n, t in args.items()),
